@@ -35,7 +35,7 @@ ASSUMPTIONS = [
     "values read from text files through the float32 loaders are compared with float32 tolerance (1e-6 relative)",
     "the wedge_list console script needs numpydoc (not installed); the functions it wraps are driven directly",
 ]
-BUDGET = {"quick": {"examples": 800, "seconds": 85}, "thorough": {"examples": 5000, "seconds": 540}}
+BUDGET = {"quick": {"examples": 1600, "seconds": 85}, "thorough": {"examples": 5000, "seconds": 540}}
 
 dec = st.tuples(st.integers(0, 10**6), st.integers(1, 8)).map(lambda t: ("%.*f" % (t[1], t[0] / 10 ** min(t[1], 6))))
 small_dec = st.tuples(st.integers(1, 999), st.integers(5, 9)).map(lambda t: "%.*f" % (t[1], t[0] / 10 ** t[1]))  # 0.00005 ... below 1e-4
